@@ -338,14 +338,18 @@ Definition dep_graph (page : nat) (recs : list span) : list ((str * str) * N) :=
   let pg := firstn page recs in
   fold_left (dep_step (svc_map pg)) pg [].
 
-(* specification: the number of (child, parent) pairs of records where the parent's span id is the
-   child's parent id, the parent is in service a and the child in service b *)
+(* specification: the number of (child, parent) pairs of records OF ONE TRACE where the parent's span
+   id is the child's parent id, the parent is in service a and the child in service b *)
 Definition is_cross (a b : str) (cp : span * span) : bool :=
   let '(c, p) := cp in
   negb (is_empty (sp_parent c)) && str_eqb (sp_id p) (sp_parent c)
+  && str_eqb (sp_trace p) (sp_trace c)
   && str_eqb (sp_service p) a && str_eqb (sp_service c) b.
 Definition cross_pairs (recs : list span) (a b : str) : N :=
   count_if (is_cross a b) (list_prod recs recs).
+(* guard: a parent id never names a span of another trace *)
+Definition same_trace_parents (recs : list span) : bool :=
+  forallb (fun c => forallb (fun p => negb (str_eqb (sp_id p) (sp_parent c)) || str_eqb (sp_trace p) (sp_trace c)) recs) recs.
 
 (* ------------------------------------------------------------------ *)
 (* quick-select and percentiles (lineartimefinding.go, T = uint64)     *)
